@@ -1,4 +1,4 @@
-import Nstd.Server.MoreC14
+import Nstd.Server.LemmasC14F
 /-
   C14 — property theorems about the transition-system model of `Server::run()` (ModelC14.lean).
 
@@ -185,6 +185,50 @@ theorem dispatch_only_registered_kinds (ms : List Move) (inp : PollIn) (o : Outc
     obtain ⟨reg, hr1, hr2⟩ := hok i fl h3
     rw [(pollStep_tables (reach ms) inp).2.2.2.1] at hr1
     exact Or.inr ⟨i, fl, reg, h3, hr1, hr2, h4⟩
+
+/-- the registration of every client of every reachable state is (read unless suspended) + (write iff backlog) -/
+theorem client_interest (ms : List Move) (i : Id) (c : ClientS) (reg : Flags)
+    (hc : (reach ms).clients i = some c) (hl : lookup (reach ms).sockets i = some reg) :
+    reg = clientFlags c.suspended c.backlog := invF_reach ms i c reg hc hl
+
+/-- a suspended client gets no onRead — also when its read event was already buffered in the poll when
+    it was suspended (by another client's callback), and whatever the kernel reports -/
+theorem suspended_client_no_onRead (ms : List Move) (inp : PollIn) (o : Outcome) (now tmo : Int)
+    (hpc : (reach ms).pc = .poll now tmo) (c : Id) (he : Ev.onRead c ∈ (step (reach ms) inp o).2) :
+    ∃ cl, (reach ms).clients c = some cl ∧ cl.suspended = false := by
+  have hlive := callbacks_only_to_live ms inp o _ he
+  simp only [LiveFor] at hlive
+  cases hc : (reach ms).clients c with
+  | none => exact absurd hc hlive
+  | some cl =>
+    refine ⟨cl, rfl, ?_⟩
+    rcases dispatch_only_registered_kinds ms inp o now tmo hpc _ he with h | ⟨i, fl, reg, _, hreg, hsub, hk⟩
+    · simp at h
+    · simp only [KindFor] at hk
+      obtain ⟨rfl, hr⟩ := hk
+      have := client_interest ms c cl reg hc hreg
+      have hrr := hsub.1 hr
+      rw [this] at hrr
+      simpa [clientFlags] using hrr
+
+/-- onWrite is delivered only to a client that had a backlog (write interest) when the step started -/
+theorem onWrite_needs_backlog (ms : List Move) (inp : PollIn) (o : Outcome) (now tmo : Int)
+    (hpc : (reach ms).pc = .poll now tmo) (c : Id) (he : Ev.onWrite c ∈ (step (reach ms) inp o).2) :
+    ∃ cl, (reach ms).clients c = some cl ∧ cl.backlog ≠ 0 := by
+  have hlive := callbacks_only_to_live ms inp o _ he
+  simp only [LiveFor] at hlive
+  cases hc : (reach ms).clients c with
+  | none => exact absurd hc hlive
+  | some cl =>
+    refine ⟨cl, rfl, ?_⟩
+    rcases dispatch_only_registered_kinds ms inp o now tmo hpc _ he with h | ⟨i, fl, reg, _, hreg, hsub, hk⟩
+    · simp at h
+    · simp only [KindFor] at hk
+      obtain ⟨rfl, hw, _⟩ := hk
+      have := client_interest ms c cl reg hc hreg
+      have hww := hsub.2.1 hw
+      rw [this] at hww
+      simpa [clientFlags] using hww
 
 /-! ### failing I/O -/
 
